@@ -1107,7 +1107,13 @@ static Type check_expression_impl(ASTNode *expr, Environment *env) {
                 /* map(array, transform_fn) -> array */
                 if (expr->as.call.arg_count >= 2) {
                     Type array_type = check_expression(expr->as.call.args[0], env);
-                    check_expression(expr->as.call.args[1], env);  /* Check function */
+                    Type fn_type = check_expression(expr->as.call.args[1], env);  /* Check function */
+                    if (fn_type != TYPE_FUNCTION && fn_type != TYPE_UNKNOWN) {
+                        g_typecheck_error_diagnostics++;
+                        fprintf(stderr, "Error at line %d, column %d: map requires a function as its second argument (got %s)\n",
+                                expr->line, expr->column, type_to_string(fn_type));
+                        return TYPE_UNKNOWN;
+                    }
                     return array_type;  /* Return same type as input array */
                 }
                 return TYPE_ARRAY;
@@ -1118,7 +1124,13 @@ static Type check_expression_impl(ASTNode *expr, Environment *env) {
                 /* filter(array, predicate_fn) -> array */
                 if (expr->as.call.arg_count >= 2) {
                     Type array_type = check_expression(expr->as.call.args[0], env);
-                    check_expression(expr->as.call.args[1], env);  /* Check function */
+                    Type fn_type = check_expression(expr->as.call.args[1], env);  /* Check function */
+                    if (fn_type != TYPE_FUNCTION && fn_type != TYPE_UNKNOWN) {
+                        g_typecheck_error_diagnostics++;
+                        fprintf(stderr, "Error at line %d, column %d: filter requires a function as its second argument (got %s)\n",
+                                expr->line, expr->column, type_to_string(fn_type));
+                        return TYPE_UNKNOWN;
+                    }
                     return array_type;
                 }
                 return TYPE_ARRAY;
@@ -1130,7 +1142,13 @@ static Type check_expression_impl(ASTNode *expr, Environment *env) {
                 if (expr->as.call.arg_count >= 3) {
                     check_expression(expr->as.call.args[0], env);  /* Check array */
                     Type initial_type = check_expression(expr->as.call.args[1], env);  /* Check initial value */
-                    check_expression(expr->as.call.args[2], env);  /* Check function */
+                    Type fn_type = check_expression(expr->as.call.args[2], env);  /* Check function */
+                    if (fn_type != TYPE_FUNCTION && fn_type != TYPE_UNKNOWN) {
+                        g_typecheck_error_diagnostics++;
+                        fprintf(stderr, "Error at line %d, column %d: reduce requires a function as its third argument (got %s)\n",
+                                expr->line, expr->column, type_to_string(fn_type));
+                        return TYPE_UNKNOWN;
+                    }
                     return initial_type;  /* Return same type as initial value */
                 }
                 return TYPE_UNKNOWN;
